@@ -18,6 +18,7 @@ package affiliation
 
 import (
 	"go/ast"
+	"go/token"
 	"go/types"
 
 	"go.uber.org/nilaway/annotation"
@@ -94,6 +95,20 @@ func (a *Affiliation) computeTriggersForCastingSites(pass *analysishelper.Enhanc
 
 		// identify sites of explicit or implicit casts
 		for _, decl := range file.Decls {
+			if genDecl, ok := decl.(*ast.GenDecl); ok && genDecl.Tok == token.VAR {
+				// package-level variables, e.g., var i I = &S{}
+				for _, spec := range genDecl.Specs {
+					if valueSpec, ok := spec.(*ast.ValueSpec); ok {
+						for i := 0; i < len(valueSpec.Values); i++ {
+							lhsType := pass.TypesInfo.TypeOf(valueSpec.Type)
+							rhsType := pass.TypesInfo.TypeOf(valueSpec.Values[i])
+							appendTypeToTypeTriggers(lhsType, rhsType)
+						}
+					}
+				}
+				continue
+			}
+
 			f, ok := decl.(*ast.FuncDecl)
 			if !ok {
 				continue
